@@ -466,6 +466,11 @@ func treeCheck(c *vlib.Case, api treeAPI, t *treeInst, ps []pt, kind string, exa
 		if rng.Intn(4) == 0 {
 			ks = append(ks, 0)
 		}
+		if rng.Intn(3) == 0 {
+			// k as "no limit" (documented: fewer than K coordinates are returned if the tree is smaller)
+			ks = append(ks, math.MaxInt)
+			c.Count(pre+".KNN.k_is_max_int", 1)
+		}
 		for _, k := range ks {
 			c.Count(pre+".KNN.compared", 1)
 			if k >= len(ps) {
